@@ -10,7 +10,9 @@ evaluator) *over the facts regenerated from calc.go* (`Facts.C08.tokenPriority`,
 mentions `Float`).
 -/
 import XlModel.Lemmas.Calc
+import XlModel.Lemmas.CalcAgree
 import XlModel.Lemmas.CalcInt
+import XlModel.CalcCheck
 
 namespace XlModel.Props.C08
 open XlModel XlModel.Calc XlModel.Facts.C08 NumOps
@@ -257,6 +259,906 @@ theorem arith_agree_nonvacuous :
     Spec.binop .add (.bool true : Spec.Val Int) (.text [55]) = .num 8 := by
   refine ⟨arith_agree lawful_int .add _ rfl _ _ trivial trivial (by simp) (by simp) trivial
     (fun _ _ => rfl) (fun _ _ _ _ => rfl), by decide +kernel⟩
+
+/-! ## per-operator agreement: `/`, `^`, `&` and the six comparisons -/
+
+/-- order / zero-one laws of the carrier used by the comparison theorems (IEEE doubles without
+NaN operands satisfy them; so does the integer instance: `lawfulCmp_int`) -/
+structure LawfulCmp (N : Type) [NumOps N] : Prop where
+  isZero_zero : isZero (zero : N) = true
+  isZero_one : isZero (one : N) = false
+  lt01 : lt (zero : N) one = true ∧ lt (one : N) zero = false ∧ lt (zero : N) zero = false ∧ lt (one : N) one = false
+  eq01 : eq (zero : N) zero = true ∧ eq (one : N) one = true ∧ eq (zero : N) one = false ∧ eq (one : N) zero = false
+  le_iff : ∀ x y : N, isNaN x = false → isNaN y = false → le x y = (lt x y || eq x y)
+  gt_iff : ∀ x y : N, isNaN x = false → isNaN y = false → lt y x = (!lt x y && !eq x y)
+  ge_iff : ∀ x y : N, isNaN x = false → isNaN y = false → le y x = !lt x y
+
+theorem lawfulCmp_int : LawfulCmp Int := by
+  refine ⟨rfl, rfl, by decide, by decide, ?_, ?_, ?_⟩
+  · intro x y _ _
+    show decide (x ≤ y) = (decide (x < y) || (x == y))
+    rcases Int.lt_trichotomy x y with h | h | h
+    · have h1 : x ≤ y := by omega
+      simp [h, h1]
+    · subst h; simp
+    · have h1 : ¬ x ≤ y := by omega
+      have h2 : ¬ x < y := by omega
+      have h3 : ¬ x = y := by omega
+      simp [h1, h2, h3]
+  · intro x y _ _
+    show decide (y < x) = (!decide (x < y) && !(x == y))
+    rcases Int.lt_trichotomy x y with h | h | h
+    · have h1 : ¬ y < x := by omega
+      simp [h, h1]
+    · subst h; simp
+    · have h2 : ¬ x < y := by omega
+      have h3 : ¬ x = y := by omega
+      simp [h, h2, h3]
+  · intro x y _ _
+    show decide (y ≤ x) = !decide (x < y)
+    by_cases h1 : x < y
+    · have : ¬ y ≤ x := by omega
+      simp [h1, this]
+    · have : y ≤ x := by omega
+      simp [h1, this]
+
+section norm
+variable {N : Type} [NumOps N]
+
+theorem norm_num (L : Lawful N) (x : N) : Impl.blank0 (toImpl (.num x)) = .num x false := by
+  simp [toImpl, Impl.blank0, Impl.value, L.fmt_ne]
+
+theorem value_b2n (C : LawfulCmp N) (b : Bool) :
+    Impl.value (.num (if b then one else zero : N) true) = if b then sTRUE else sFALSE := by
+  cases b <;> simp [Impl.value, C.isZero_zero, C.isZero_one]
+
+theorem norm_bool (C : LawfulCmp N) (b : Bool) :
+    Impl.blank0 (toImpl (.bool b : Spec.Val N)) = .num (if b then one else zero) true := by
+  have := value_b2n C b
+  cases b <;> simp_all [toImpl, Impl.mkBool, Impl.blank0, sTRUE, sFALSE]
+
+theorem norm_text (s : Str) (hs : s ≠ []) : Impl.blank0 (toImpl (.text s : Spec.Val N)) = .str s := by
+  simp [toImpl, Impl.blank0, Impl.value, hs]
+
+theorem norm_blank (L : Lawful N) : Impl.blank0 (toImpl (.blank : Spec.Val N)) = .num zero false := by
+  simp [toImpl, Impl.blank0, Impl.value, Impl.mkNum, L.nan_zero]
+
+end norm
+
+/-- Excel's three-way comparison of two numbers -/
+def ordNum {N : Type} [NumOps N] (x y : N) : Ordering :=
+  if lt x y then .lt else if eq x y then .eq else .gt
+
+/-- operand pairs on which excelize's `< <= > >=` follow Excel's order numbers < text < booleans:
+number/blank pairs (no NaN), text pairs whose ordinal order is their case-insensitive order
+(otherwise `finding_text_case`), number or blank against non-empty text, boolean pairs.
+Excluded: a boolean against anything else (`finding_bool_gt_number`), the empty text literal
+(`finding_empty_text`), error operands. -/
+def CompatOrd {N : Type} [NumOps N] : Spec.Val N → Spec.Val N → Prop
+  | .num x, .num y => isNaN x = false ∧ isNaN y = false
+  | .num x, .blank => isNaN x = false
+  | .blank, .num y => isNaN y = false
+  | .blank, .blank => True
+  | .text s, .text t => s ≠ [] ∧ t ≠ [] ∧ cmpStr s t = cmpStr (upper s) (upper t)
+  | .num _, .text t => t ≠ []
+  | .text s, .num _ => s ≠ []
+  | .blank, .text t => t ≠ []
+  | .text s, .blank => s ≠ []
+  | .bool _, .bool _ => True
+  | _, _ => False
+
+theorem ordNum_b2n {N : Type} [NumOps N] (C : LawfulCmp N) (p q : Bool) :
+    ordNum (if p then one else zero : N) (if q then one else zero) =
+      (if p = q then .eq else if q then .lt else .gt) := by
+  obtain ⟨a1, a2, a3, a4⟩ := C.lt01
+  obtain ⟨b1, b2, b3, b4⟩ := C.eq01
+  cases p <;> cases q <;> simp [ordNum, *]
+
+theorem agree_bool {N : Type} [NumOps N] (v w : Bool) (h : v = w) :
+    Agree (.ok (Impl.mkBool v : Impl.Arg N)) (.bool w) := by
+  subst h; simp [Agree, Impl.mkBool]
+
+/-- the four ordering operators share one proof, parametrised by what they do on two numbers,
+two strings, number/string and string/number -/
+theorem ord_agree_generic {N : Type} [NumOps N] (L : Lawful N) (C : LawfulCmp N)
+    (nn : N → N → Bool) (ss : Ordering → Bool) (ns sn : Bool) (f : Ordering → Bool)
+    (hnn : ∀ x y : N, isNaN x = false → isNaN y = false → nn x y = f (ordNum x y))
+    (hss : ∀ o, ss o = f o) (hns : ns = f .lt) (hsn : sn = f .gt)
+    (a b : Spec.Val N) (h : CompatOrd a b) :
+    Agree (Impl.ordRes nn ss ns sn (Impl.blank0 (toImpl a)) (Impl.blank0 (toImpl b)))
+      (Spec.compare f a b) := by
+  have hz := L.nan_zero
+  cases a <;> cases b <;> simp only [CompatOrd] at h
+  case num.num x y =>
+    rw [norm_num L, norm_num L]
+    exact agree_bool _ _ (hnn x y h.1 h.2)
+  case num.text x t =>
+    rw [norm_num L, norm_text t h]
+    exact agree_bool _ _ hns
+  case num.blank x =>
+    rw [norm_num L, norm_blank L]
+    exact agree_bool _ _ (hnn x zero h hz)
+  case text.num s y =>
+    rw [norm_text s h, norm_num L]
+    exact agree_bool _ _ hsn
+  case text.text s t =>
+    rw [norm_text s h.1, norm_text t h.2.1]
+    exact agree_bool _ _ (by rw [hss, h.2.2]; rfl)
+  case text.blank s =>
+    rw [norm_text s h, norm_blank L]
+    refine agree_bool _ _ ?_
+    show sn = f (cmpStr (upper s) (upper []))
+    rw [hsn]
+    have : cmpStr (upper s) (upper []) = .gt := Impl.cmpStr_nil_right _ (Impl.upper_ne_nil s h)
+    rw [this]
+  case bool.bool p q =>
+    rw [norm_bool C, norm_bool C]
+    refine agree_bool _ _ ?_
+    have h1 : isNaN (if p then one else zero : N) = false := by cases p <;> simp [L.nan_zero, L.nan_one]
+    have h2 : isNaN (if q then one else zero : N) = false := by cases q <;> simp [L.nan_zero, L.nan_one]
+    rw [hnn _ _ h1 h2, ordNum_b2n C]
+    rfl
+  case blank.num y =>
+    rw [norm_blank L, norm_num L]
+    exact agree_bool _ _ (hnn zero y hz h)
+  case blank.text t =>
+    rw [norm_blank L, norm_text t h]
+    refine agree_bool _ _ ?_
+    show ns = f (cmpStr (upper []) (upper t))
+    rw [hns]
+    have : cmpStr (upper []) (upper t) = .lt := Impl.cmpStr_nil_left _ (Impl.upper_ne_nil t h)
+    rw [this]
+  case blank.blank =>
+    rw [norm_blank L]
+    refine agree_bool _ _ ?_
+    rw [hnn zero zero hz hz]
+    obtain ⟨_, _, a3, _⟩ := C.lt01
+    obtain ⟨b1, _, _, _⟩ := C.eq01
+    show f (ordNum zero zero) = f .eq
+    simp [ordNum, a3, b1]
+
+theorem compatOrd_notErr {N : Type} [NumOps N] (a b : Spec.Val N) (h : CompatOrd a b) :
+    NotErr a ∧ NotErr b := by
+  cases a <;> cases b <;> simp_all [CompatOrd, NotErr]
+
+/-- clause "the six comparisons with Excel's … coercion rules", `< <= > >=`: on every compatible
+operand pair (`CompatOrd`) excelize's result is Excel's — numbers (and blanks as 0) numerically,
+text by (case-insensitive = ordinal) order, numbers below text, FALSE below TRUE. -/
+theorem ord_agree {N : Type} [NumOps N] (L : Lawful N) (C : LawfulCmp N) (op : Op)
+    (hop : op = .lt ∨ op = .le ∨ op = .gt ∨ op = .ge) (a b : Spec.Val N) (h : CompatOrd a b) :
+    Agree (Impl.applyBin op (toImpl a) (toImpl b)) (Spec.binop op a b) := by
+  have hne := compatOrd_notErr a b h
+  have na := blank0_toImpl_ne_err L a hne.1
+  have nb := blank0_toImpl_ne_err L b hne.2
+  rcases hop with rfl | rfl | rfl | rfl
+  · rw [Impl.applyBin_lt_shape _ _ na nb]
+    refine ord_agree_generic L C _ _ _ _ (· == .lt) ?_ (fun _ => rfl) rfl rfl a b h
+    intro x y _ _
+    cases h1 : lt x y <;> cases h2 : eq x y <;> simp [ordNum, h1, h2]
+  · rw [Impl.applyBin_le_shape _ _ na nb]
+    refine ord_agree_generic L C _ _ _ _ (· != .gt) ?_ (fun _ => rfl) rfl rfl a b h
+    intro x y hx hy
+    rw [C.le_iff x y hx hy]
+    cases h1 : lt x y <;> cases h2 : eq x y <;> simp [ordNum, h1, h2]
+  · rw [Impl.applyBin_gt_shape _ _ na nb]
+    refine ord_agree_generic L C _ _ _ _ (· == .gt) ?_ (fun _ => rfl) rfl rfl a b h
+    intro x y hx hy
+    show lt y x = _
+    rw [C.gt_iff x y hx hy]
+    cases h1 : lt x y <;> cases h2 : eq x y <;> simp [ordNum, h1, h2]
+  · rw [Impl.applyBin_ge_shape _ _ na nb]
+    refine ord_agree_generic L C _ _ _ _ (· != .lt) ?_ (fun _ => rfl) rfl rfl a b h
+    intro x y hx hy
+    show le y x = _
+    rw [C.ge_iff x y hx hy]
+    cases h1 : lt x y <;> cases h2 : eq x y <;> simp [ordNum, h1, h2]
+
+/-- operand pairs on which excelize's `=` / `<>` (comparison of `Value()` strings) is Excel's
+typed equality.  Excluded (each with its finding): two numbers whose `%g` spellings coincide
+without the numbers being equal or vice versa (`eq:negzero`), text differing in case only
+(`finding_text_case`), a number against text with the same spelling (`finding_eq_number_text`),
+the empty text literal, blank against FALSE, a boolean against the text "TRUE"/"FALSE". -/
+def CompatEq {N : Type} [NumOps N] : Spec.Val N → Spec.Val N → Prop
+  | .num x, .num y => (fmtG x = fmtG y ↔ (lt x y = false ∧ eq x y = true))
+  | .num x, .blank => (fmtG x = fmtG (zero : N) ↔ (lt x zero = false ∧ eq x zero = true))
+  | .blank, .num y => (fmtG (zero : N) = fmtG y ↔ (lt zero y = false ∧ eq zero y = true))
+  | .blank, .blank => True
+  | .text s, .text t => s ≠ [] ∧ t ≠ [] ∧ cmpStr s t = cmpStr (upper s) (upper t)
+  | .num x, .text t => t ≠ [] ∧ fmtG x ≠ t
+  | .text s, .num y => s ≠ [] ∧ fmtG y ≠ s
+  | .blank, .text t => t ≠ [] ∧ fmtG (zero : N) ≠ t
+  | .text s, .blank => s ≠ [] ∧ fmtG (zero : N) ≠ s
+  | .bool _, .bool _ => True
+  | .bool _, .num y => fmtG y ≠ sTRUE ∧ fmtG y ≠ sFALSE
+  | .num x, .bool _ => fmtG x ≠ sTRUE ∧ fmtG x ≠ sFALSE
+  | .bool _, .text t => t ≠ [] ∧ t ≠ sTRUE ∧ t ≠ sFALSE
+  | .text s, .bool _ => s ≠ [] ∧ s ≠ sTRUE ∧ s ≠ sFALSE
+  | .bool p, .blank => p = true ∧ fmtG (zero : N) ≠ sTRUE
+  | .blank, .bool q => q = true ∧ fmtG (zero : N) ≠ sTRUE
+  | _, _ => False
+
+theorem compatEq_notErr {N : Type} [NumOps N] (a b : Spec.Val N) (h : CompatEq a b) :
+    NotErr a ∧ NotErr b := by
+  cases a <;> cases b <;> simp_all [CompatEq, NotErr]
+
+theorem numeq_core {N : Type} [NumOps N] (x y : N)
+    (h : fmtG x = fmtG y ↔ (lt x y = false ∧ eq x y = true)) :
+    decide (fmtG y = fmtG x) = (ordNum x y == .eq) := by
+  have : (fmtG y = fmtG x) ↔ (lt x y = false ∧ eq x y = true) := by rw [eq_comm]; exact h
+  have e : decide (fmtG y = fmtG x) = decide (lt x y = false ∧ eq x y = true) :=
+    decide_eq_decide.mpr this
+  rw [e]
+  unfold ordNum
+  by_cases h1 : lt x y = true <;> by_cases h2 : eq x y = true <;> simp [h1, h2]
+
+theorem eq_core {N : Type} [NumOps N] (L : Lawful N) (C : LawfulCmp N) (a b : Spec.Val N)
+    (h : CompatEq a b) :
+    decide (Impl.value (Impl.blank0 (toImpl b)) = Impl.value (Impl.blank0 (toImpl a))) =
+      (Spec.cmp a b == .eq) := by
+  obtain ⟨a1, a2, a3, a4⟩ := C.lt01
+  obtain ⟨b1, b2, b3, b4⟩ := C.eq01
+  have vnum : ∀ x : N, Impl.value (.num x false) = fmtG x := fun _ => rfl
+  have vstr : ∀ t : Str, Impl.value (.str t : Impl.Arg N) = t := fun _ => rfl
+  cases a <;> cases b <;> simp only [CompatEq] at h
+  case num.num x y =>
+    rw [norm_num L, norm_num L, vnum, vnum]
+    exact numeq_core x y h
+  case num.blank x =>
+    rw [norm_num L, norm_blank L, vnum, vnum]
+    exact numeq_core x zero h
+  case blank.num y =>
+    rw [norm_num L, norm_blank L, vnum, vnum]
+    exact numeq_core zero y h
+  case blank.blank =>
+    rw [norm_blank L]
+    have := numeq_core (zero : N) zero (by simp [a3, b1])
+    simp [Spec.cmp]
+  case text.text s t =>
+    rw [norm_text s h.1, norm_text t h.2.1, vstr, vstr]
+    show decide (t = s) = (cmpStr (upper s) (upper t) == .eq)
+    rw [← h.2.2]
+    by_cases hst : s = t
+    · subst hst; simp [(Impl.cmpStr_eq_iff s s).mpr rfl]
+    · have h1 : ¬ t = s := fun e => hst e.symm
+      have h2 : cmpStr s t ≠ .eq := fun e => hst ((Impl.cmpStr_eq_iff s t).mp e)
+      simp [h1, h2]
+  case num.text x t =>
+    rw [norm_num L, norm_text t h.1, vnum, vstr]
+    have : ¬ t = fmtG x := fun e => h.2 e.symm
+    simp [this, Spec.cmp]
+  case text.num s y =>
+    rw [norm_num L, norm_text s h.1, vnum, vstr]
+    simp [h.2, Spec.cmp]
+  case blank.text t =>
+    rw [norm_blank L, norm_text t h.1, vnum, vstr]
+    have h1 : ¬ t = fmtG (zero : N) := fun e => h.2 e.symm
+    have h2 : cmpStr (upper []) (upper t) = .lt := Impl.cmpStr_nil_left _ (Impl.upper_ne_nil t h.1)
+    simp [h1, Spec.cmp, h2]
+  case text.blank s =>
+    rw [norm_blank L, norm_text s h.1, vnum, vstr]
+    have h2 : cmpStr (upper s) (upper []) = .gt := Impl.cmpStr_nil_right _ (Impl.upper_ne_nil s h.1)
+    simp [h.2, Spec.cmp, h2]
+  case bool.bool p q =>
+    rw [norm_bool C, norm_bool C, value_b2n C, value_b2n C]
+    cases p <;> cases q <;> simp [Spec.cmp, sTRUE, sFALSE]
+  case bool.num p y =>
+    rw [norm_bool C, norm_num L, value_b2n C, vnum]
+    cases p <;> simp [Spec.cmp, h.1, h.2]
+  case num.bool x q =>
+    rw [norm_bool C, norm_num L, value_b2n C, vnum]
+    have h1 : ¬ sTRUE = fmtG x := fun e => h.1 e.symm
+    have h2 : ¬ sFALSE = fmtG x := fun e => h.2 e.symm
+    cases q <;> simp [Spec.cmp, h1, h2]
+  case bool.text p t =>
+    rw [norm_bool C, norm_text t h.1, value_b2n C, vstr]
+    cases p <;> simp [Spec.cmp, h.2.1, h.2.2]
+  case text.bool s q =>
+    rw [norm_bool C, norm_text s h.1, value_b2n C, vstr]
+    have h1 : ¬ sTRUE = s := fun e => h.2.1 e.symm
+    have h2 : ¬ sFALSE = s := fun e => h.2.2 e.symm
+    cases q <;> simp [Spec.cmp, h1, h2]
+  case bool.blank p =>
+    rw [norm_bool C, norm_blank L, value_b2n C, vnum]
+    obtain ⟨hp, hf⟩ := h
+    subst hp
+    simp [Spec.cmp, hf]
+  case blank.bool q =>
+    rw [norm_bool C, norm_blank L, value_b2n C, vnum]
+    obtain ⟨hq, hf⟩ := h
+    subst hq
+    have : ¬ sTRUE = fmtG (zero : N) := fun e => hf e.symm
+    simp [Spec.cmp, this]
+
+/-- clause "the six comparisons", `=` and `<>` -/
+theorem eq_agree {N : Type} [NumOps N] (L : Lawful N) (C : LawfulCmp N) (op : Op)
+    (hop : op = .eq ∨ op = .ne) (a b : Spec.Val N) (h : CompatEq a b) :
+    Agree (Impl.applyBin op (toImpl a) (toImpl b)) (Spec.binop op a b) := by
+  have hne := compatEq_notErr a b h
+  have na := blank0_toImpl_ne_err L a hne.1
+  have nb := blank0_toImpl_ne_err L b hne.2
+  have hc : ∀ f, Spec.compare f a b = .bool (f (Spec.cmp a b)) := by
+    intro f
+    cases a <;> cases b <;> simp_all [Spec.compare, NotErr]
+  rcases hop with rfl | rfl
+  · rw [Impl.applyBin_eq_shape _ _ na nb]
+    show Agree _ (Spec.compare (· == .eq) a b)
+    rw [hc]
+    exact agree_bool _ _ (eq_core L C a b h)
+  · rw [Impl.applyBin_ne_shape _ _ na nb]
+    show Agree _ (Spec.compare (· != .eq) a b)
+    rw [hc]
+    refine agree_bool _ _ ?_
+    have := eq_core L C a b h
+    have e1 : decide (Impl.value (Impl.blank0 (toImpl b)) ≠ Impl.value (Impl.blank0 (toImpl a))) =
+        !decide (Impl.value (Impl.blank0 (toImpl b)) = Impl.value (Impl.blank0 (toImpl a))) := by
+      simp
+    rw [e1, this]
+    rfl
+
+/-! ### the whole-tree relation and the per-node theorem -/
+
+/-- relation between an excelize outcome and an Excel value: an error on the Excel side is an
+aborted evaluation on excelize's side; any other value is presented to `calculate` exactly as
+`toImpl` says (numbers, booleans with the Boolean flag, text, a blank reference as "") -/
+def R {N : Type} [NumOps N] (r : Except Impl.MErr (Impl.Arg N)) : Spec.Val N → Prop
+  | .err _ => ∃ m, r = .error m
+  | a => r = .ok (toImpl a)
+
+theorem R_of_agree {N : Type} [NumOps N] (r : Except Impl.MErr (Impl.Arg N)) (s : Spec.Val N)
+    (h : Agree r s) (hb : s ≠ .blank) (he : ∀ m, r ≠ .ok (.err m)) : R r s := by
+  cases s with
+  | blank => exact absurd rfl hb
+  | err c =>
+    cases r with
+    | error m => exact ⟨m, rfl⟩
+    | ok v => cases v <;> simp_all [Agree]
+  | num y =>
+    cases r with
+    | error m => simp [Agree] at h
+    | ok v =>
+      cases v with
+      | num x b => cases b <;> simp_all [Agree, R, toImpl]
+      | _ => simp [Agree] at h
+  | bool q =>
+    cases r with
+    | error m => simp [Agree] at h
+    | ok v =>
+      cases v with
+      | num x b => cases b <;> simp_all [Agree, R, toImpl, Impl.mkBool]
+      | _ => simp [Agree] at h
+  | text t =>
+    cases r with
+    | error m => simp [Agree] at h
+    | ok v => cases v <;> simp_all [Agree, R, toImpl]
+
+/-- the number an arithmetic node produces is an ordinary number -/
+def Finite {N : Type} [NumOps N] (x : N) : Prop := isNaN x = false ∧ isInf x = false
+
+/-- operands of an arithmetic operator on which the coercion agrees -/
+def ArithOperands {N : Type} [NumOps N] (a b : Spec.Val N) : Prop :=
+  NotErr a ∧ NotErr b ∧ a ≠ .text [] ∧ b ≠ .text [] ∧ Clean a ∧ Clean b
+
+/-- all five arithmetic operators at once: both sides coerce the operands in the same way
+(`coerce_agree`) and then apply `g` / `gs`, which agree pointwise -/
+theorem arith_R_generic {N : Type} [NumOps N] (L : Lawful N) (op : Op) (a b : Spec.Val N)
+    (g : N → N → Except Impl.MErr (Impl.Arg N)) (gs : N → N → Spec.Val N)
+    (hI : Impl.applyBin op (toImpl a) (toImpl b) =
+      (do let x ← Impl.liftE (Impl.toNumber (Impl.blank0 (toImpl a)))
+          let y ← Impl.liftE (Impl.toNumber (Impl.blank0 (toImpl b)))
+          g x y))
+    (hS : Spec.binop op a b = Spec.arith gs a b)
+    (ho : ArithOperands a b)
+    (hp : ∀ x y, Spec.toNum a = .ok x → Spec.toNum b = .ok y → R (g x y) (gs x y)) :
+    R (Impl.applyBin op (toImpl a) (toImpl b)) (Spec.binop op a b) := by
+  obtain ⟨ha, hb, ha', hb', hca, hcb⟩ := ho
+  have ca := coerce_agree L a ha ha' hca
+  have cb := coerce_agree L b hb hb' hcb
+  have hoe : Spec.operandErr a b = none := by
+    cases a <;> cases b <;> simp_all [Spec.operandErr, NotErr]
+  rw [hI, hS]
+  simp only [Spec.arith, hoe]
+  cases hx : Spec.toNum a with
+  | error c =>
+    rw [hx] at ca
+    obtain ⟨m, hm⟩ := ca
+    simp [hm, Impl.liftE, Spec.ofExcept, R]
+  | ok x =>
+    rw [hx] at ca
+    cases hy : Spec.toNum b with
+    | error c =>
+      rw [hy] at cb
+      obtain ⟨m, hm⟩ := cb
+      simp [ca, hm, Impl.liftE, Spec.ofExcept, R]
+    | ok y =>
+      rw [hy] at cb
+      simpa [ca, cb, Impl.liftE, Spec.ofExcept] using hp x y hx hy
+
+theorem R_num {N : Type} [NumOps N] (x : N) (h : Finite x) :
+    R (.ok (Impl.mkNum x)) (Spec.mkNum x) := by
+  simp [Impl.mkNum, Spec.mkNum, h.1, h.2, R, toImpl]
+
+/-- a number operand of `&` whose `%g` spelling is Excel's General spelling (otherwise:
+known finding `concat:number-format`, e.g. 1000000 → "1e+06") -/
+def PlainNum {N : Type} [NumOps N] : Spec.Val N → Prop
+  | .num x => fmtG x = fmtGeneral x
+  | _ => True
+
+theorem text_agree {N : Type} [NumOps N] (C : LawfulCmp N) (v : Spec.Val N) (hv : NotErr v)
+    (hp : PlainNum v) : Spec.toText v = .ok (Impl.value (toImpl v)) := by
+  cases v with
+  | err c => exact absurd hv (by simp [NotErr])
+  | num x => simp [Spec.toText, toImpl, Impl.value, show fmtG x = fmtGeneral x from hp]
+  | bool b => simp [Spec.toText, toImpl, Impl.mkBool, value_b2n C]
+  | text s => simp [Spec.toText, toImpl, Impl.value]
+  | blank => simp [Spec.toText, toImpl, Impl.value]
+
+/-- the operator × operand combinations on which the current code implements Excel's semantics.
+Everything outside is one of the listed findings:
+arithmetic — an error operand is handled by propagation (not here), the empty text literal
+(`finding_empty_text`), a NaN or ±Inf result (`numerr-swallowed`, `overflow-inf`), `0^0` and
+`0^negative` (`pow:zero-base`); `&` — a number whose `%g` spelling is not Excel's
+(`concat:number-format`); comparisons — see `CompatOrd`, `CompatEq`. -/
+def Compatible {N : Type} [NumOps N] (op : Op) (a b : Spec.Val N) : Prop :=
+  match op with
+  | .add => ArithOperands a b ∧ ∀ x y, Spec.toNum a = .ok x → Spec.toNum b = .ok y → Finite (add x y)
+  | .sub => ArithOperands a b ∧ ∀ x y, Spec.toNum a = .ok x → Spec.toNum b = .ok y → Finite (sub x y)
+  | .mul => ArithOperands a b ∧ ∀ x y, Spec.toNum a = .ok x → Spec.toNum b = .ok y → Finite (mul x y)
+  | .div => ArithOperands a b ∧
+      ∀ x y, Spec.toNum a = .ok x → Spec.toNum b = .ok y → isZero y = false → Finite (div x y)
+  | .pow => ArithOperands a b ∧
+      ∀ x y, Spec.toNum a = .ok x → Spec.toNum b = .ok y →
+        (isZero x = true → isZero y = false ∧ lt y zero = false) ∧ Finite (pow x y)
+  | .concat => NotErr a ∧ NotErr b ∧ PlainNum a ∧ PlainNum b
+  | .lt => CompatOrd a b
+  | .le => CompatOrd a b
+  | .gt => CompatOrd a b
+  | .ge => CompatOrd a b
+  | .eq => CompatEq a b
+  | .ne => CompatEq a b
+
+/-- clause "with Excel's … coercion rules", per operator × operand-kind pair, all twelve
+operators: on every compatible combination excelize's `calculate` produces exactly Excel's
+value (same number, same text, same boolean) and an error exactly where Excel has one
+(`#VALUE!` for non-numeric text in arithmetic, `#DIV/0!`). -/
+theorem binop_agree {N : Type} [NumOps N] (L : Lawful N) (C : LawfulCmp N) (op : Op)
+    (a b : Spec.Val N) (h : Compatible op a b) :
+    R (Impl.applyBin op (toImpl a) (toImpl b)) (Spec.binop op a b) := by
+  have cmpR : ∀ (hA : Agree (Impl.applyBin op (toImpl a) (toImpl b)) (Spec.binop op a b))
+      (q : Bool) (hq : Spec.binop op a b = .bool q),
+      R (Impl.applyBin op (toImpl a) (toImpl b)) (Spec.binop op a b) := by
+    intro hA q hq
+    refine R_of_agree _ _ hA (by rw [hq]; simp) ?_
+    intro m hm
+    rw [hm, hq] at hA
+    simp [Agree] at hA
+  have cmpBool : ∀ f, NotErr a → NotErr b → Spec.compare f a b = .bool (f (Spec.cmp a b)) := by
+    intro f ha hb
+    cases a <;> cases b <;> simp_all [Spec.compare, NotErr]
+  cases op
+  case add =>
+    obtain ⟨ho, hf⟩ := h
+    exact arith_R_generic L .add a b (fun x y => pure (Impl.mkNum (add x y))) (fun x y => Spec.mkNum (add x y))
+      (applyBin_arith_shape .add add rfl _ _ (blank0_toImpl_ne_err L a ho.1) (blank0_toImpl_ne_err L b ho.2.1))
+      rfl ho (fun x y hx hy => R_num _ (hf x y hx hy))
+  case sub =>
+    obtain ⟨ho, hf⟩ := h
+    exact arith_R_generic L .sub a b (fun x y => pure (Impl.mkNum (sub x y))) (fun x y => Spec.mkNum (sub x y))
+      (applyBin_arith_shape .sub sub rfl _ _ (blank0_toImpl_ne_err L a ho.1) (blank0_toImpl_ne_err L b ho.2.1))
+      rfl ho (fun x y hx hy => R_num _ (hf x y hx hy))
+  case mul =>
+    obtain ⟨ho, hf⟩ := h
+    exact arith_R_generic L .mul a b (fun x y => pure (Impl.mkNum (mul x y))) (fun x y => Spec.mkNum (mul x y))
+      (applyBin_arith_shape .mul mul rfl _ _ (blank0_toImpl_ne_err L a ho.1) (blank0_toImpl_ne_err L b ho.2.1))
+      rfl ho (fun x y hx hy => R_num _ (hf x y hx hy))
+  case div =>
+    obtain ⟨ho, hf⟩ := h
+    refine arith_R_generic L .div a b
+      (fun x y => if isZero y then .error (.msg (.lit formulaErrorDIV)) else pure (Impl.mkNum (div x y)))
+      (fun x y => if isZero y then .err .div0 else Spec.mkNum (div x y))
+      (Impl.applyBin_div_shape _ _ (blank0_toImpl_ne_err L a ho.1) (blank0_toImpl_ne_err L b ho.2.1))
+      rfl ho ?_
+    intro x y hx hy
+    cases hz : isZero y
+    · simpa [hz] using R_num _ (hf x y hx hy hz)
+    · simp [hz, R]
+  case pow =>
+    obtain ⟨ho, hf⟩ := h
+    refine arith_R_generic L .pow a b (fun x y => pure (Impl.mkNum (pow x y))) Spec.powSpec
+      (Impl.applyBin_pow_shape _ _ (blank0_toImpl_ne_err L a ho.1) (blank0_toImpl_ne_err L b ho.2.1))
+      rfl ho ?_
+    intro x y hx hy
+    obtain ⟨hz, hfin⟩ := hf x y hx hy
+    unfold Spec.powSpec
+    cases hzx : isZero x
+    · simpa [hzx] using R_num _ hfin
+    · obtain ⟨h1, h2⟩ := hz hzx
+      simpa [hzx, h1, h2] using R_num _ hfin
+  case concat =>
+    obtain ⟨ha, hb, pa, pb⟩ := h
+    have na : ∀ m, toImpl a ≠ .err m := by cases a <;> simp_all [toImpl, NotErr, Impl.mkBool]
+    have nb : ∀ m, toImpl b ≠ .err m := by cases b <;> simp_all [toImpl, NotErr, Impl.mkBool]
+    rw [Impl.applyBin_concat_shape _ _ na nb]
+    simp [Spec.binop, text_agree C a ha pa, text_agree C b hb pb, Spec.ofExcept, R, toImpl]
+  case lt =>
+    have hn := compatOrd_notErr a b h
+    exact cmpR (ord_agree L C .lt (Or.inl rfl) a b h) _ (show Spec.binop .lt a b = _ from cmpBool (· == .lt) hn.1 hn.2)
+  case le =>
+    have hn := compatOrd_notErr a b h
+    exact cmpR (ord_agree L C .le (Or.inr (Or.inl rfl)) a b h) _ (show Spec.binop .le a b = _ from cmpBool (· != .gt) hn.1 hn.2)
+  case gt =>
+    have hn := compatOrd_notErr a b h
+    exact cmpR (ord_agree L C .gt (Or.inr (Or.inr (Or.inl rfl))) a b h) _ (show Spec.binop .gt a b = _ from cmpBool (· == .gt) hn.1 hn.2)
+  case ge =>
+    have hn := compatOrd_notErr a b h
+    exact cmpR (ord_agree L C .ge (Or.inr (Or.inr (Or.inr rfl))) a b h) _ (show Spec.binop .ge a b = _ from cmpBool (· != .lt) hn.1 hn.2)
+  case eq =>
+    have hn := compatEq_notErr a b h
+    exact cmpR (eq_agree L C .eq (Or.inl rfl) a b h) _ (show Spec.binop .eq a b = _ from cmpBool (· == .eq) hn.1 hn.2)
+  case ne =>
+    have hn := compatEq_notErr a b h
+    exact cmpR (eq_agree L C .ne (Or.inr rfl) a b h) _ (show Spec.binop .ne a b = _ from cmpBool (· != .eq) hn.1 hn.2)
+
+/-! ### the whole tree -/
+
+def IsErr {N : Type} : Spec.Val N → Prop
+  | .err _ => True
+  | _ => False
+
+def b2n {N : Type} [NumOps N] (b : Bool) : N := if b then one else zero
+
+/-- operands on which unary minus is Excel's: numbers, booleans, blanks, numeric text (an error
+propagates); non-numeric text is `finding_neg_text` -/
+def NegOK {N : Type} [NumOps N] : Spec.Val N → Prop
+  | .err _ => True
+  | .num x => isNaN x = false ∧ Finite (sub zero x)
+  | .bool b => Finite (sub zero (b2n b : N))
+  | .blank => Finite (sub (zero : N) zero)
+  | .text s => ∃ x : N, parse s = some x ∧ isNaN x = false ∧ Finite (sub zero x)
+
+/-- operands on which postfix % is Excel's: numbers, booleans, blanks (text: `finding_pct_text`) -/
+def PctOK {N : Type} [NumOps N] : Spec.Val N → Prop
+  | .err _ => True
+  | .num x => Finite (div x (ofNat 100))
+  | .bool b => Finite (div (b2n b : N) (ofNat 100))
+  | .blank => Finite (div (zero : N) (ofNat 100))
+  | .text _ => False
+
+/-- the two cell environments describe the same workbook: every referenced cell is known to both
+or to neither, holds no error value (`ref:error-not-propagated`), and reaches `calculate` as
+`toImpl` of its Excel value -/
+def EnvRel {N : Type} [NumOps N] (envI : Str → Option (Impl.CellArg N)) (envS : Str → Option (Spec.Val N)) : Prop :=
+  ∀ k, match envS k, envI k with
+    | none, none => True
+    | some a, some c => NotErr a ∧ Impl.tokenToArg (Impl.argToTok c) = toImpl a
+    | _, _ => False
+
+/-- no node of the tree is one of the listed deviant (operator, operand-kind) combinations -/
+def NoDeviant {N : Type} [NumOps N] (envS : Str → Option (Spec.Val N)) : Expr → Prop
+  | .num raw => ∃ x : N, parse raw = some x ∧ isNaN x = false
+  | .text _ => True
+  | .logical _ => True
+  | .ref _ => True
+  | .paren e => NoDeviant envS e
+  | .neg e => NoDeviant envS e ∧ (∀ e', e ≠ .neg e') ∧ NegOK (Spec.eval envS e)
+  | .pct e => NoDeviant envS e ∧ PctOK (Spec.eval envS e)
+  | .bin op l r => NoDeviant envS l ∧ NoDeviant envS r ∧
+      (IsErr (Spec.eval envS l) ∨ IsErr (Spec.eval envS r) ∨
+        Compatible op (Spec.eval envS l) (Spec.eval envS r))
+
+theorem R_ok {N : Type} [NumOps N] (r : Except Impl.MErr (Impl.Arg N)) (a : Spec.Val N) (h : ¬ IsErr a) :
+    R r a ↔ r = .ok (toImpl a) := by
+  cases a <;> simp_all [R, IsErr]
+
+theorem R_err {N : Type} [NumOps N] (r : Except Impl.MErr (Impl.Arg N)) (a : Spec.Val N) (h : IsErr a) :
+    R r a ↔ ∃ m, r = .error m := by
+  cases a <;> simp_all [R, IsErr]
+
+theorem spec_binop_err {N : Type} [NumOps N] (op : Op) (a b : Spec.Val N) (h : IsErr a ∨ IsErr b) :
+    IsErr (Spec.binop op a b) := by
+  cases op <;> cases a <;> cases b <;>
+    simp_all [IsErr, Spec.binop, Spec.arith, Spec.operandErr, Spec.compare, Spec.ofExcept, Spec.toText]
+
+theorem spec_neg_err {N : Type} [NumOps N] (a : Spec.Val N) (h : IsErr a) : IsErr (Spec.neg a) := by
+  cases a <;> simp_all [IsErr, Spec.neg, Spec.toNum, Spec.ofExcept]
+
+theorem spec_pct_err {N : Type} [NumOps N] (a : Spec.Val N) (h : IsErr a) : IsErr (Spec.pct a) := by
+  cases a <;> simp_all [IsErr, Spec.pct, Spec.toNum, Spec.ofExcept]
+
+theorem neg_R {N : Type} [NumOps N] (L : Lawful N) (hpn : (parse ([] : Str) : Option N) = none)
+    (a : Spec.Val N) (hn : ¬ IsErr a) (h : NegOK a) :
+    R (.ok (Impl.negate (toImpl a))) (Spec.neg a) := by
+  cases a with
+  | err c => exact absurd trivial hn
+  | num x =>
+    obtain ⟨h1, h2⟩ := h
+    have := R_num _ h2
+    simpa [Impl.negate, Impl.toNumberField, Impl.toNumber, toImpl, h1, Spec.neg, Spec.toNum, Spec.ofExcept] using this
+  | bool b =>
+    have := R_num _ h
+    have hb : isNaN (if b then one else zero : N) = false := by cases b <;> simp [L.nan_zero, L.nan_one]
+    simpa [Impl.negate, Impl.toNumberField, Impl.toNumber, toImpl, Impl.mkBool, hb, Spec.neg, Spec.toNum,
+      Spec.ofExcept, b2n] using this
+  | blank =>
+    have := R_num _ h
+    simpa [Impl.negate, Impl.toNumberField, Impl.toNumber, toImpl, hpn, Spec.neg, Spec.toNum,
+      Spec.ofExcept] using this
+  | text s =>
+    obtain ⟨x, hp, h1, h2⟩ := h
+    have := R_num _ h2
+    simpa [Impl.negate, Impl.toNumberField, Impl.toNumber, toImpl, hp, h1, Spec.neg, Spec.toNum,
+      Spec.ofExcept] using this
+
+theorem pct_R {N : Type} [NumOps N] (a : Spec.Val N) (hn : ¬ IsErr a) (h : PctOK a) :
+    R (.ok (Impl.percent (toImpl a))) (Spec.pct a) := by
+  have hd : percentDivisor = 100 := by decide
+  cases a with
+  | err c => exact absurd trivial hn
+  | text s => exact absurd h (by simp [PctOK])
+  | num x =>
+    have := R_num _ h
+    simpa [Impl.percent, Impl.numberField, toImpl, hd, Spec.pct, Spec.toNum, Spec.ofExcept] using this
+  | bool b =>
+    have := R_num _ h
+    simpa [Impl.percent, Impl.numberField, toImpl, Impl.mkBool, hd, Spec.pct, Spec.toNum, Spec.ofExcept, b2n] using this
+  | blank =>
+    have := R_num _ h
+    simpa [Impl.percent, Impl.numberField, toImpl, hd, Spec.pct, Spec.toNum, Spec.ofExcept] using this
+
+/-- the structural evaluator agrees with Excel on every tree without deviant nodes -/
+theorem tree_agree {N : Type} [NumOps N] (L : Lawful N) (C : LawfulCmp N)
+    (hpn : (parse ([] : Str) : Option N) = none)
+    (envI : Str → Option (Impl.CellArg N)) (envS : Str → Option (Spec.Val N)) (hE : EnvRel envI envS)
+    (e : Expr) (hN : NoDeviant envS e) :
+    R (Impl.evalTree envI e) (Spec.eval envS e) := by
+  induction e with
+  | num raw =>
+    obtain ⟨x, hp, hn⟩ := hN
+    simp [Impl.evalTree, Impl.tokenToArg, Spec.eval, hp, Impl.mkNum, hn, R, toImpl]
+  | text s => simp [Impl.evalTree, Impl.tokenToArg, Spec.eval, R, toImpl, Tok.tvalue]
+  | logical raw => simp [Impl.evalTree, Impl.tokenToArg, Spec.eval, R, toImpl]
+  | ref k =>
+    have hk := hE k
+    simp only [Impl.evalTree, Spec.eval]
+    cases hs : envS k with
+    | none =>
+      cases hi : envI k with
+      | none => simp [R]
+      | some c => simp [hs, hi] at hk
+    | some a =>
+      cases hi : envI k with
+      | none => simp [hs, hi] at hk
+      | some c =>
+        simp only [hs, hi] at hk
+        have hne : ¬ IsErr a := by
+          have := hk.1
+          cases a <;> simp_all [IsErr, NotErr]
+        exact (R_ok _ a hne).mpr (by rw [← hk.2]; rfl)
+  | paren e ih => exact ih hN
+  | neg e ih =>
+    obtain ⟨h1, hnn, h3⟩ := hN
+    have ihe := ih h1
+    rw [Impl.evalTree_neg envI e hnn]
+    show R _ (Spec.neg (Spec.eval envS e))
+    by_cases he : IsErr (Spec.eval envS e)
+    · obtain ⟨m, hm⟩ := (R_err _ _ he).mp ihe
+      rw [hm]
+      exact (R_err _ _ (spec_neg_err _ he)).mpr ⟨m, rfl⟩
+    · rw [(R_ok _ _ he).mp ihe]
+      exact neg_R L hpn _ he h3
+  | pct e ih =>
+    obtain ⟨h1, h3⟩ := hN
+    have ihe := ih h1
+    rw [Impl.evalTree_pct]
+    show R _ (Spec.pct (Spec.eval envS e))
+    by_cases he : IsErr (Spec.eval envS e)
+    · obtain ⟨m, hm⟩ := (R_err _ _ he).mp ihe
+      rw [hm]
+      exact (R_err _ _ (spec_pct_err _ he)).mpr ⟨m, rfl⟩
+    · rw [(R_ok _ _ he).mp ihe]
+      exact pct_R _ he h3
+  | bin op l r ihl ihr =>
+    obtain ⟨hl, hr, hc⟩ := hN
+    have il := ihl hl
+    have ir := ihr hr
+    rw [Impl.evalTree_bin]
+    show R _ (Spec.binop op (Spec.eval envS l) (Spec.eval envS r))
+    by_cases hel : IsErr (Spec.eval envS l)
+    · obtain ⟨m, hm⟩ := (R_err _ _ hel).mp il
+      rw [hm]
+      exact (R_err _ _ (spec_binop_err op _ _ (Or.inl hel))).mpr ⟨m, rfl⟩
+    · rw [(R_ok _ _ hel).mp il]
+      by_cases her : IsErr (Spec.eval envS r)
+      · obtain ⟨m, hm⟩ := (R_err _ _ her).mp ir
+        rw [hm]
+        exact (R_err _ _ (spec_binop_err op _ _ (Or.inr her))).mpr ⟨m, rfl⟩
+      · rw [(R_ok _ _ her).mp ir]
+        rcases hc with h | h | h
+        · exact absurd h hel
+        · exact absurd h her
+        · exact binop_agree L C op _ _ h
+
+/-- clause "CalcCellValue evaluates expressions … with Excel's precedence, associativity and
+coercion rules, so its result equals that of an independent reference evaluator": ONE statement
+for whole formulas.  For every expression tree of any depth none of whose nodes is one of the
+listed deviant (operator, operand-kind) combinations (`NoDeviant`: `Compatible` at every binary
+node, `NegOK` / `PctOK` at unary nodes, no directly nested `--`), over two descriptions of the
+same workbook (`EnvRel`), the token machine of `evalInfixExp` run on the formula's tokens yields
+exactly Excel's value — the same number, text or boolean — and aborts with an error exactly
+when Excel's value is an error, which then propagates through every enclosing operator.
+It composes `shunting_yard_correct` with `binop_agree` by induction on the tree.
+Partial: the excluded combinations are the open findings. -/
+theorem calc_correct_partial {N : Type} [NumOps N] (L : Lawful N) (C : LawfulCmp N)
+    (hpn : (parse ([] : Str) : Option N) = none)
+    (envI : Str → Option (Impl.CellArg N)) (envS : Str → Option (Spec.Val N)) (hE : EnvRel envI envS)
+    (e : Expr) (hN : NoDeviant envS e) :
+    R (Impl.evalTokens envI (render 1 e)) (Spec.eval envS e) := by
+  rw [shunting_yard_correct]
+  exact tree_agree L C hpn envI envS hE e hN
+
+/-- non-vacuity of `calc_correct_partial`: all hypotheses hold on the integer instance for the
+formula `1+2*3<10` (empty workbook), whose value is TRUE on both sides -/
+theorem calc_correct_nonvacuous :
+    let e : Expr := .bin .lt (.bin .add (.num [49]) (.bin .mul (.num [50]) (.num [51]))) (.num [49, 48])
+    NoDeviant (N := Int) (fun _ => none) e ∧
+    EnvRel (N := Int) (fun _ => none) (fun _ => none) ∧
+    Impl.evalTokens (N := Int) (fun _ => none) (render 1 e) = .ok (.num 1 true) ∧
+    Spec.eval (N := Int) (fun _ => none) e = .bool true := by
+  have hfin : ∀ z : Int, Finite z := fun _ => ⟨rfl, rfl⟩
+  refine ⟨?_, fun _ => trivial, by decide +kernel, by decide +kernel⟩
+  have e1 : Spec.eval (N := Int) (fun _ => none) (.num [49]) = .num 1 := by decide +kernel
+  have e2 : Spec.eval (N := Int) (fun _ => none) (.num [50]) = .num 2 := by decide +kernel
+  have e3 : Spec.eval (N := Int) (fun _ => none) (.num [51]) = .num 3 := by decide +kernel
+  have e10 : Spec.eval (N := Int) (fun _ => none) (.num [49, 48]) = .num 10 := by decide +kernel
+  have em : Spec.eval (N := Int) (fun _ => none) (.bin .mul (.num [50]) (.num [51])) = .num 6 := by
+    decide +kernel
+  have ea : Spec.eval (N := Int) (fun _ => none)
+      (.bin .add (.num [49]) (.bin .mul (.num [50]) (.num [51]))) = .num 7 := by decide +kernel
+  have ao : ∀ x y : Int, ArithOperands (.num x : Spec.Val Int) (.num y) :=
+    fun x y => ⟨trivial, trivial, by simp, by simp, rfl, rfl⟩
+  refine ⟨⟨⟨1, by decide +kernel, rfl⟩, ⟨⟨2, by decide +kernel, rfl⟩, ⟨3, by decide +kernel, rfl⟩, ?_⟩, ?_⟩,
+    ⟨10, by decide +kernel, rfl⟩, ?_⟩
+  · rw [e2, e3]; exact Or.inr (Or.inr ⟨ao 2 3, fun _ _ _ _ => hfin _⟩)
+  · rw [e1, em]; exact Or.inr (Or.inr ⟨ao 1 6, fun _ _ _ _ => hfin _⟩)
+  · rw [ea, e10]; exact Or.inr (Or.inr ⟨rfl, rfl⟩)
+
+/-! ### the executable mirror used by the driver is sound -/
+
+theorem mirror_arithOperands {N : Type} [NumOps N] (a b : Spec.Val N)
+    (h : Check.arithOperands a b = true) : ArithOperands a b := by
+  simp only [Check.arithOperands, Bool.and_eq_true, Bool.not_eq_true'] at h
+  obtain ⟨⟨⟨⟨⟨h1, h2⟩, h3⟩, h4⟩, h5⟩, h6⟩ := h
+  have cl : ∀ v : Spec.Val N, Check.cleanB v = true → Clean v := by
+    intro v hv
+    cases v with
+    | num x => simpa [Check.cleanB, Clean] using hv
+    | text s =>
+      simp only [Clean]
+      intro x hx
+      simpa [Check.cleanB, hx] using hv
+    | _ => simp [Clean]
+  refine ⟨?_, ?_, ?_, ?_, cl a h5, cl b h6⟩
+  · cases a <;> simp_all [Check.isErr, NotErr]
+  · cases b <;> simp_all [Check.isErr, NotErr]
+  · intro e; subst e; simp [Check.emptyText] at h3
+  · intro e; subst e; simp [Check.emptyText] at h4
+
+theorem mirror_both {N : Type} [NumOps N] (a b : Spec.Val N) (f : N → N → Bool)
+    (h : Check.both a b f = true) (x y : N) (hx : Spec.toNum a = .ok x) (hy : Spec.toNum b = .ok y) :
+    f x y = true := by
+  simpa [Check.both, hx, hy] using h
+
+theorem mirror_finite {N : Type} [NumOps N] (x : N) (h : Check.finite x = true) : Finite x := by
+  simpa [Check.finite, Finite] using h
+
+theorem mirror_compatOrd {N : Type} [NumOps N] (a b : Spec.Val N) (h : Check.compatOrd a b = true) :
+    CompatOrd a b := by
+  cases a <;> cases b <;> simp_all [Check.compatOrd, CompatOrd]
+
+theorem mirror_numEq {N : Type} [NumOps N] (x y : N) (h : Check.numEq x y = true) :
+    (fmtG x = fmtG y ↔ (lt x y = false ∧ eq x y = true)) := by
+  unfold Check.numEq at h
+  by_cases h1 : fmtG x = fmtG y <;> cases h2 : lt x y <;> cases h3 : eq x y <;> simp_all
+
+theorem mirror_compatEq {N : Type} [NumOps N] (a b : Spec.Val N) (h : Check.compatEq a b = true) :
+    CompatEq a b := by
+  cases a <;> cases b <;> simp only [Check.compatEq] at h <;> simp only [CompatEq]
+  all_goals first
+    | exact mirror_numEq _ _ h
+    | trivial
+    | (simp_all)
+
+/-- the Boolean test the driver runs on every transcript line implies the hypothesis
+`Compatible` of `binop_agree` -/
+theorem mirror_compatible {N : Type} [NumOps N] (op : Op) (a b : Spec.Val N)
+    (h : Check.compatible op a b = true) : Compatible op a b := by
+  cases op <;> simp only [Check.compatible, Bool.and_eq_true] at h <;> simp only [Compatible]
+  case add => exact ⟨mirror_arithOperands a b h.1, fun x y hx hy => mirror_finite _ (mirror_both a b _ h.2 x y hx hy)⟩
+  case sub => exact ⟨mirror_arithOperands a b h.1, fun x y hx hy => mirror_finite _ (mirror_both a b _ h.2 x y hx hy)⟩
+  case mul => exact ⟨mirror_arithOperands a b h.1, fun x y hx hy => mirror_finite _ (mirror_both a b _ h.2 x y hx hy)⟩
+  case div =>
+    refine ⟨mirror_arithOperands a b h.1, fun x y hx hy hz => mirror_finite _ ?_⟩
+    have := mirror_both a b _ h.2 x y hx hy
+    simpa [hz] using this
+  case pow =>
+    refine ⟨mirror_arithOperands a b h.1, fun x y hx hy => ?_⟩
+    have := mirror_both a b _ h.2 x y hx hy
+    simp only [Bool.and_eq_true, Bool.or_eq_true, Bool.not_eq_true'] at this
+    refine ⟨fun hz => ?_, mirror_finite _ this.2⟩
+    rcases this.1 with h1 | h1
+    · rw [hz] at h1; cases h1
+    · exact h1
+  case concat =>
+    obtain ⟨⟨⟨h1, h2⟩, h3⟩, h4⟩ := h
+    have pl : ∀ v : Spec.Val N, Check.plainNum v = true → PlainNum v := by
+      intro v hv; cases v <;> simp_all [Check.plainNum, PlainNum]
+    refine ⟨?_, ?_, pl a h3, pl b h4⟩
+    · cases a <;> simp_all [Check.isErr, NotErr]
+    · cases b <;> simp_all [Check.isErr, NotErr]
+  case lt => exact mirror_compatOrd a b h
+  case le => exact mirror_compatOrd a b h
+  case gt => exact mirror_compatOrd a b h
+  case ge => exact mirror_compatOrd a b h
+  case eq => exact mirror_compatEq a b h
+  case ne => exact mirror_compatEq a b h
+
+theorem mirror_negOK {N : Type} [NumOps N] (a : Spec.Val N) (h : Check.negOK a = true) : NegOK a := by
+  cases a with
+  | err c => trivial
+  | num x =>
+    simp only [Check.negOK, Bool.and_eq_true, Bool.not_eq_true'] at h
+    exact ⟨h.1, mirror_finite _ h.2⟩
+  | bool b => exact mirror_finite _ h
+  | blank => exact mirror_finite _ h
+  | text s =>
+    simp only [Check.negOK] at h
+    cases hp : (parse s : Option N) with
+    | none => simp [hp] at h
+    | some x =>
+      simp only [hp, Bool.and_eq_true, Bool.not_eq_true'] at h
+      exact ⟨x, hp, h.1, mirror_finite _ h.2⟩
+
+theorem mirror_pctOK {N : Type} [NumOps N] (a : Spec.Val N) (h : Check.pctOK a = true) : PctOK a := by
+  cases a with
+  | err c => trivial
+  | text s => simp [Check.pctOK] at h
+  | num x => exact mirror_finite _ h
+  | bool b => exact mirror_finite _ h
+  | blank => exact mirror_finite _ h
+
+theorem mirror_isErr {N : Type} (a : Spec.Val N) (h : Check.isErr a = true) : IsErr a := by
+  cases a <;> simp_all [Check.isErr, IsErr]
+
+/-- the Boolean test the driver runs on every transcript line (`Check.noDeviant`) implies the
+hypothesis `NoDeviant` of `calc_correct_partial`: the lines on which the driver checks the
+theorem's conclusion against the real implementation are instances of the theorem -/
+theorem mirror_noDeviant {N : Type} [NumOps N] (envS : Str → Option (Spec.Val N)) (rk : Str → Bool)
+    (e : Expr) (h : Check.noDeviant envS rk e = true) : NoDeviant envS e := by
+  induction e with
+  | num raw =>
+    simp only [Check.noDeviant] at h
+    cases hp : (parse raw : Option N) with
+    | none => simp [hp] at h
+    | some x => exact ⟨x, hp, by simpa [hp] using h⟩
+  | text s => trivial
+  | logical raw => trivial
+  | ref k => trivial
+  | paren e ih => exact ih h
+  | neg e ih =>
+    simp only [Check.noDeviant, Bool.and_eq_true, Bool.not_eq_true'] at h
+    refine ⟨ih h.1.1, ?_, mirror_negOK _ h.2⟩
+    intro e' he
+    subst he
+    simp [Check.isNeg] at h
+  | pct e ih =>
+    simp only [Check.noDeviant, Bool.and_eq_true] at h
+    exact ⟨ih h.1, mirror_pctOK _ h.2⟩
+  | bin op l r ihl ihr =>
+    simp only [Check.noDeviant, Bool.and_eq_true, Bool.or_eq_true] at h
+    refine ⟨ihl h.1.1, ihr h.1.2, ?_⟩
+    rcases h.2 with (h1 | h1) | h1
+    · exact Or.inl (mirror_isErr _ h1)
+    · exact Or.inr (Or.inl (mirror_isErr _ h1))
+    · exact Or.inr (Or.inr (mirror_compatible op _ _ h1))
 
 /-! ## aggregates over ranges -/
 
